@@ -70,7 +70,8 @@ def main():
             ok = True
             out = ""
             for pk in demo_pkgs:
-                r = sh(["go", "test", "-tags", "seeded_demo", "-vet=off", "-count=1", "-run", "^(%s)$" % demo_run, "./" + pk + "/"], repo, timeout=900)
+                race = ["-race"] if any("go:build race" in open(os.path.join(src, f), errors="replace").read() for f in demos if f.endswith(".go")) else []
+                r = sh(["go", "test", "-tags", "seeded_demo", "-vet=off", "-count=1"] + race + ["-run", "^(%s)$" % demo_run, "./" + pk + "/"], repo, timeout=1500)
                 out += r.stdout[-1500:] + r.stderr[-500:]
                 ok = ok and r.returncode == 0
             return ok, out
